@@ -529,6 +529,18 @@ impl MorselAggregateExec {
                 _ => Vec::new(),
             })
             .collect();
+        // One "saw a non-NULL input" bit per slot for SUM: SQL finalises a SUM
+        // over no non-NULL input as NULL, which a bare zeroed cell cannot
+        // encode (AVG carries its own count).
+        let seen: Vec<Vec<AtomicU64>> = kinds
+            .iter()
+            .map(|(k, _)| match k {
+                DenseAgg::SumF64 | DenseAgg::SumI64 => {
+                    (0..width.div_ceil(64)).map(|_| AtomicU64::new(0)).collect()
+                }
+                _ => Vec::new(),
+            })
+            .collect();
 
         let mut source = ParallelParquetSource::try_new_with_filter(
             self.files.clone(),
@@ -640,8 +652,10 @@ impl MorselAggregateExec {
                                         if has_nulls && arr.is_null(r) {
                                             continue;
                                         }
-                                        acc_i64[ai][(k - kmin) as usize]
-                                            .fetch_add(vals[r], Ordering::Relaxed);
+                                        let off = (k - kmin) as usize;
+                                        acc_i64[ai][off].fetch_add(vals[r], Ordering::Relaxed);
+                                        seen[ai][off >> 6]
+                                            .fetch_or(1u64 << (off & 63), Ordering::Relaxed);
                                     }
                                 }
                                 DenseAgg::SumF64 | DenseAgg::Avg => {
@@ -677,6 +691,10 @@ impl MorselAggregateExec {
                                         if matches!(kind, DenseAgg::Avg) {
                                             acc_i64[ai][(k - kmin) as usize]
                                                 .fetch_add(1, Ordering::Relaxed);
+                                        } else {
+                                            let off = (k - kmin) as usize;
+                                            seen[ai][off >> 6]
+                                                .fetch_or(1u64 << (off & 63), Ordering::Relaxed);
                                         }
                                     }
                                 }
@@ -753,33 +771,39 @@ impl MorselAggregateExec {
                             })))
                         }
                         DenseAgg::SumI64 => {
-                            let it = keys
-                                .iter()
-                                .map(|&k| acc_i64[ai][(k - kmin) as usize].load(Ordering::Relaxed));
+                            let it = keys.iter().map(|&k| {
+                                let off = (k - kmin) as usize;
+                                let saw = (seen[ai][off >> 6].load(Ordering::Relaxed) >> (off & 63)) & 1 == 1;
+                                saw.then(|| acc_i64[ai][off].load(Ordering::Relaxed))
+                            });
                             match &out_dt[ai] {
-                                DataType::Float64 => {
-                                    Arc::new(arrow::array::Float64Array::from_iter_values(
-                                        it.map(|v| v as f64),
-                                    ))
-                                }
-                                _ => Arc::new(Int64Array::from_iter_values(it)),
+                                DataType::Float64 => Arc::new(
+                                    it.map(|v| v.map(|x| x as f64))
+                                        .collect::<arrow::array::Float64Array>(),
+                                ),
+                                _ => Arc::new(it.collect::<Int64Array>()),
                             }
                         }
-                        DenseAgg::SumF64 => Arc::new(arrow::array::Float64Array::from_iter_values(
-                            keys.iter().map(|&k| {
-                                f64::from_bits(
-                                    acc_f64[ai][(k - kmin) as usize].load(Ordering::Relaxed),
-                                )
-                            }),
-                        )),
-                        DenseAgg::Avg => Arc::new(arrow::array::Float64Array::from_iter_values(
-                            keys.iter().map(|&k| {
-                                let off = (k - kmin) as usize;
-                                let s = f64::from_bits(acc_f64[ai][off].load(Ordering::Relaxed));
-                                let c = acc_i64[ai][off].load(Ordering::Relaxed);
-                                s / c as f64
-                            }),
-                        )),
+                        DenseAgg::SumF64 => Arc::new(
+                            keys.iter()
+                                .map(|&k| {
+                                    let off = (k - kmin) as usize;
+                                    let saw = (seen[ai][off >> 6].load(Ordering::Relaxed) >> (off & 63)) & 1 == 1;
+                                    saw.then(|| f64::from_bits(acc_f64[ai][off].load(Ordering::Relaxed)))
+                                })
+                                .collect::<arrow::array::Float64Array>(),
+                        ),
+                        DenseAgg::Avg => Arc::new(
+                            keys.iter()
+                                .map(|&k| {
+                                    let off = (k - kmin) as usize;
+                                    let s = f64::from_bits(acc_f64[ai][off].load(Ordering::Relaxed));
+                                    let c = acc_i64[ai][off].load(Ordering::Relaxed);
+                                    // AVG over no non-NULL input is NULL, not 0.0 / 0
+                                    (c > 0).then(|| s / c as f64)
+                                })
+                                .collect::<arrow::array::Float64Array>(),
+                        ),
                     };
                     arrays.push(arr);
                 }
